@@ -329,7 +329,7 @@ class Ctx:
             return 0
         z = z3.Int(self.fresh(label))
         self.add(z3.And(z >= 0, z < n))
-        return int(self.realize(z3.ToReal(z)))
+        return int(self.realize(z3.ToReal(z), cap=max(80, n + 1)))
 
     # -- final queries -----------------------------------------------------------------------
     def query(self, *conds: Any, timeout: int = QUERY_TIMEOUT_MS):
